@@ -256,9 +256,10 @@ def fold(prop, tier, seed, results, mod_meta, wall, timed_out, crashed):
         'wall_s': round(wall, 2),
         'violations': int(sum(n for _, n in unlisted)),
     }
-    os.makedirs(os.path.join(VERIF, 'evidence'), exist_ok=True)
-    with open(os.path.join(VERIF, 'evidence', f'{prop}.json'), 'w') as f:
-        json.dump(evidence, f, indent=1)
+    if not os.environ.get('KNEEMON_NO_EVIDENCE'):      # set only by the self-validation tools (runs against mutated scratch copies)
+        os.makedirs(os.path.join(VERIF, 'evidence'), exist_ok=True)
+        with open(os.path.join(VERIF, 'evidence', f'{prop}.json'), 'w') as f:
+            json.dump(evidence, f, indent=1)
 
     for ln in lines:
         print(ln)
